@@ -445,7 +445,7 @@ func writeEvidenceFile(cfg *Config, prop string, results []*HarnessResult, viola
 		hd := map[string]interface{}{
 			"harness": r.H.Pkg + "." + r.H.Name, "theory": r.H.Mode.String(), "paths_explored": r.Paths, "paths_pruned_by_assume": r.PathsPruned,
 			"solver_queries": r.Queries, "solver_s": round2(r.SolverTime.Seconds()), "wall_s": round2(r.Wall.Seconds()),
-			"bounds": map[string]interface{}{"loop_unwind_per_site": r.H.Unwind, "obligation_timeout_s": r.H.OblTO.Seconds(), "max_paths": r.H.MaxPaths, "options": r.H.Opts},
+			"bounds":      map[string]interface{}{"loop_unwind_per_site": r.H.Unwind, "obligation_timeout_s": r.H.OblTO.Seconds(), "max_paths": r.H.MaxPaths, "options": r.H.Opts},
 			"obligations": obls, "reachability_witnesses": r.Reaches, "fp_operations_encoded": r.FpOps, "doc": r.H.Doc, "paths_cut_at_unwind_bound": r.UnwindCuts, "paths_blocked_forever": r.Blocked,
 		}
 		if r.H.Opts["claims"] == "none" {
@@ -491,26 +491,26 @@ func writeEvidenceFile(cfg *Config, prop string, results []*HarnessResult, viola
 			"distinct_nontrivial": len(distinct),
 			"rule": "one symbolic execution of the real SSA per control-flow path of each harness; an obligation is (assertion or implicit run-time check) x path, posed to the solver as pc AND NOT cond over all symbolic inputs; " +
 				"distinct_nontrivial counts obligations distinct by (harness, assertion id, source position) that were reached under a satisfiable path condition and either still contained symbolic variables after simplification or were evaluated on a path selected by solver-checked symbolic decisions (obligations that are constant on the single decision-free path are not counted); evaluations = solver queries issued (feasibility + obligations)",
-			"samples":             samples,
-			"states":              maxInt(paths, 1),
-			"transitions":         maxInt(queries, 1),
+			"samples":                       samples,
+			"states":                        maxInt(paths, 1),
+			"transitions":                   maxInt(queries, 1),
 			"traces_validated_against_impl": len(rp.log),
-			"states_transitions_meaning": "states = symbolic control-flow paths (for concurrent harnesses: final-phase paths; thread-path combinations are listed per harness) each denoting the set of all concrete states/inputs satisfying its path condition; transitions = solver queries deciding symbolic branch feasibility and obligations; traces_validated_against_impl = solver models re-executed concretely / natively",
-			"obligations":         posed,
-			"discharged":          discharged,
-			"symbolic_obligations": nontrivial,
-			"paths":               paths,
-			"solver_time_s":       round2(solverTime.Seconds()),
-			"load_ssa_build_s":    round2(loadTime.Seconds()),
-			"functions_encoded":   fl,
-			"stubs":               sl,
-			"harnesses":           perHarness,
-			"inconclusive":        inconc,
-			"known_findings":      knownLines,
-			"generated_harnesses": genNotes,
-			"replays":             rp.log,
-			"exhaustive":          false,
-			"explanation":         "bounded symbolic model checking by SMT over the SSA of the real code, regenerated from /repo on this run; verdicts are the solver's over all values of the symbolic inputs within the stated bounds",
+			"states_transitions_meaning":    "states = symbolic control-flow paths (for concurrent harnesses: final-phase paths; thread-path combinations are listed per harness) each denoting the set of all concrete states/inputs satisfying its path condition; transitions = solver queries deciding symbolic branch feasibility and obligations; traces_validated_against_impl = solver models re-executed concretely / natively",
+			"obligations":                   posed,
+			"discharged":                    discharged,
+			"symbolic_obligations":          nontrivial,
+			"paths":                         paths,
+			"solver_time_s":                 round2(solverTime.Seconds()),
+			"load_ssa_build_s":              round2(loadTime.Seconds()),
+			"functions_encoded":             fl,
+			"stubs":                         sl,
+			"harnesses":                     perHarness,
+			"inconclusive":                  inconc,
+			"known_findings":                knownLines,
+			"generated_harnesses":           genNotes,
+			"replays":                       rp.log,
+			"exhaustive":                    false,
+			"explanation":                   "bounded symbolic model checking by SMT over the SSA of the real code, regenerated from /repo on this run; verdicts are the solver's over all values of the symbolic inputs within the stated bounds",
 		},
 	}
 	b, _ := json.MarshalIndent(ev, "", " ")
